@@ -204,6 +204,18 @@ CHECKS = {
          "agree with the SSE2 trace within 2^-13 + 2^-12 relative (Q14)."),
    note="Trusted: TLC, harness chain.rs/hid.rs digests. SIMD-vs-scalar agreement off the lattice only to the Q14 tolerance, not the analytic bound. NEON/wasm32 not executable.",
    ref="5 (C07)"),
+ "C02": dict(
+   technique="TLA+ exact geometry on integer/Pythagorean lattices with TLC-checked identities, an Ieee model of the normalize fallback rule, and TLC trace validation (arbitrary-precision integers) of the error bound on recorded calls with arbitrary f32 inputs",
+   text=("MC_C02 enumerates integer vector pairs (exact dot/cross/perp_dot/length_squared/distance_squared/element sums; TLC checks orthogonality "
+         "of the cross product, Lagrange's identity, antisymmetry), Pythagorean tuples x power-of-two scales for length/length_recip/"
+         "distance/normalize family, the fallback rule of the normalize family on zero/subnormal/underflowing/overflowing/non-finite inputs "
+         "computed with the Ieee model of length_squared, projections/reflections as exact rationals (TLC checks parallel/orthogonal), and "
+         "integer pairs at angles k*pi/12 (TLC checks cos^2). spec/Trace_C02.tla then judges recorded executions: the harness logs every "
+         "factor and the returned value of 20 sum-of-products calls per random input (24-bit mantissas, orthogonal / nearly parallel / "
+         "opposite partners, Vec3A with foreign hidden lanes) and TLC accepts an event iff |got - exact| <= 6*2^-24*sum|terms|, computed "
+         "exactly with spec/Big.tla."),
+   note="Trusted: TLC, Big.tla, harness geom.rs logging of factors. acos_approx accuracy between lattice angles is bounded only by 2e-4; f64 error bound not trace-validated.",
+   ref="5 (C02)"),
 }
 
 PENDING = {}
